@@ -752,7 +752,6 @@ func c10WitnessOps(ops []c10Op) []string {
 	return out
 }
 
-
 // c10Settled wraps a scenario (which shuts its nodes down with defers) into a bubble
 // root function that afterwards lets virtual time run: the fake clock stops when
 // the root function returns, so goroutines that are still inside a timed wait at
